@@ -6,6 +6,7 @@ import (
 	"helm.sh/helm/v4/pkg/action"
 	chart "helm.sh/helm/v4/pkg/chart/v2"
 	release "helm.sh/helm/v4/pkg/release/v1"
+	"helm.sh/helm/v4/verifh/sim"
 )
 
 // Op is one helm operation of a generated history (JSON-serialisable for replay files).
@@ -31,6 +32,9 @@ type Op struct {
 	SubNotes       bool `json:"subNotes,omitempty"`
 	SkipCRDs       bool `json:"skipCRDs,omitempty"`
 	CreateNS       bool `json:"createNS,omitempty"`
+	// Inject makes the op fail on purpose when a history is built: "wait" = the readiness wait
+	// fails, "mut" = the first cluster mutation of the op is rejected. Interpreted by ExecInject.
+	Inject string `json:"inject,omitempty"`
 	// DryRun: "" (real) | "flag" (DryRun=true) | client | server | true | none | false
 	DryRun string `json:"dryRun,omitempty"`
 }
@@ -58,6 +62,9 @@ func (o Op) String() string {
 	if o.DryRun != "" {
 		s += "+dry=" + o.DryRun
 	}
+	if o.Inject != "" {
+		s += "+FAIL:" + o.Inject
+	}
 	return s
 }
 
@@ -79,6 +86,20 @@ func (r OpResult) ErrString() string {
 // ch must be a freshly built chart object (helm mutates charts while processing them).
 func (w *World) Exec(agent, name string, op Op, ch *chart.Chart) OpResult {
 	return w.ExecCfg(w.Config(agent), name, op, ch)
+}
+
+// ExecInject is Exec honouring op.Inject (a deliberate environment fault while building a history).
+func (w *World) ExecInject(agent, name string, op Op, ch *chart.Chart) OpResult {
+	switch op.Inject {
+	case "wait":
+		w.Script.Reset()
+		w.Script.FailWaitNth, w.Script.FailAgent = 1, agent
+		defer w.Script.Reset()
+	case "mut":
+		f := w.Sim.AddFault(&sim.Fault{Match: func(r *sim.Req) bool { return r.Agent == agent && r.Class == "mutation" }, Nth: 1, Code: 500, Once: true})
+		defer func() { f.Code = 0 }()
+	}
+	return w.Exec(agent, name, op, ch)
 }
 
 func copyVals(v map[string]any) map[string]any {
